@@ -121,6 +121,40 @@ fn main() {
             }
             eprintln!("ran {count} twin pairs ({}), {bad} runs with mismatch/panic/watchdog", args[2]);
         }
+        // mqv aged <seed> <count> <profile.json|-> <trace-out.ndjson> <cfgs.ndjson>
+        "aged" => {
+            let seed: u64 = args[2].parse().expect("seed");
+            let count: usize = args[3].parse().expect("count");
+            let profile: rnd::Profile = if args[4] == "-" { rnd::Profile::default() } else {
+                serde_json::from_reader(std::fs::File::open(&args[4]).expect("open profile")).expect("profile json")
+            };
+            let mut out = std::io::BufWriter::new(std::fs::File::create(&args[5]).expect("create out"));
+            let cfgs: Vec<types::Cfg> = std::fs::read_to_string(&args[6]).expect("cfgs").lines()
+                .filter(|l| !l.trim().is_empty()).map(|l| serde_json::from_str(l).expect("cfg json")).collect();
+            let (mut bad, mut compared) = (0usize, 0usize);
+            for i in 0..count {
+                let mut cfg = cfgs[i % cfgs.len()].clone();
+                let s = seed.wrapping_mul(9_000_011).wrapping_add(i as u64);
+                let flag = std::rc::Rc::new(std::cell::Cell::new(false));
+                cfg.name = format!("aged-{seed}-{i}-fresh");
+                let dir = Box::new(rnd::AgedDirector::new(s, None, cfg.tx, cfg.rx, flag.clone()));
+                let fresh = runner::run_scenario(&cfg, dir);
+                cfg.name = format!("aged-{seed}-{i}-aged");
+                let hist = rnd::RandomDirector::new(s, profile.clone(), cfg.rx, cfg.downgrade);
+                let dir = Box::new(rnd::AgedDirector::new(s, Some(hist), cfg.tx, cfg.rx, flag.clone()));
+                let aged = runner::run_scenario(&cfg, dir);
+                for res in [&fresh, &aged] {
+                    if res.mismatch.is_some() || res.panicked.is_some() || res.watchdog { bad += 1; }
+                    for l in &res.lines { writeln!(out, "{l}").unwrap(); }
+                }
+                // compared only when the history could be drained to a quiescent session
+                if flag.get() {
+                    compared += 1;
+                    writeln!(out, "{}", serde_json::json!({"e":"twin","kind":"aged","dropped":0})).unwrap();
+                }
+            }
+            eprintln!("ran {count} fresh/aged pairs, {compared} compared, {bad} runs with mismatch/panic/watchdog");
+        }
         // mqv vectors <vectors.ndjson> <trace-out.ndjson> [rx]
         "vectors" => {
             let input = std::fs::File::open(&args[2]).expect("open vectors");
